@@ -19,6 +19,7 @@ def check(ctx: Ctx) -> None:
     r_map_bound(ctx, "R05.3")
     r_map_end_wrapper(ctx, "R05.4")
     SP.r_unreachable_lock_raise(ctx, "R05.6")
+    SP.r_no_fake_cancellation(ctx, "R05.10")
     S.r_spawner_registry_who(ctx, "R05.8")
     from .elemtrack import r_spawner_kept
     r_spawner_kept(ctx, "R05.9")
@@ -200,8 +201,8 @@ def r_map_bound(ctx: Ctx, rule: str) -> None:
             e = ctx.call_arg(s.ast, t, "end_callback")
             ok = False
             if isinstance(e, ast.Name) and e.id in sc.defs:
-                vals = [h[1] for h in sc.defs[e.id] if h[0] == "assign"]
-                ok = bool(vals) and all(isinstance(v, ast.Call) and any(x.name == "_get_map_end_callback" for x in sc.callee(v).targets) for v in vals)
+                vals = ctx.vals.alts(s.func, e)
+                ok = bool(vals) and all(isinstance(v, ast.Call) and any(x.name == "_get_map_end_callback" for x in ctx.an.scope(s.func).callee(v).targets) for v in vals)
             elif isinstance(e, ast.Call):
                 ok = any(x.name == "_get_map_end_callback" for x in sc.callee(e).targets)
             rep.ob(rule, "the end callback handed to _start_task is the semaphore-releasing wrapper", ok, node=s)
@@ -216,7 +217,7 @@ def r_map_bound(ctx: Ctx, rule: str) -> None:
     # the wrapper itself
     others = [e for e in ctx.effects(kinds=["release"]) if e.container == "Semaphore" and e.path != SLOT and ctx.in_pool(e.node.func)]
     for e in others:
-        host = ctx.hosts(e.node.func)
+        host = ctx.hosts_of(e.node)
         rep.ob(rule, "the map semaphore is released only by the end-callback wrapper and the consumer's cancellation handler",
                host <= {"_get_map_end_callback", "_arg_consumer"}, node=e.node, detail=f"on behalf of {sorted(host)}")
     rep.floor(rule, "release sites of the map semaphore", len(others), 1)
